@@ -26,6 +26,7 @@ type Case struct {
 	// UserModel: add an object type bound to a hand-written Go struct whose fields are shared by
 	// several schema fields (fieldName aliases, names differing only in case)
 	UserModel bool `json:"user_model,omitempty"`
+	AutoBind  bool `json:"autobind,omitempty"`
 }
 
 var seq atomic.Int64
@@ -78,7 +79,16 @@ func Generate(c Case, keep bool) (dir string, f *vfrun.Failure) {
 		_ = os.MkdirAll(filepath.Join(dir, "um"), 0o755)
 		_ = os.WriteFile(filepath.Join(dir, "um", "um.go"), []byte("package um\n\n// VhOverlap is a hand-written model.\ntype VhOverlap struct {\n\tA     *string\n\tB     int\n\tUpper *string\n}\n"), 0o644)
 		_ = os.WriteFile(filepath.Join(dir, "zz_user.graphqls"), []byte("type VhOverlap {\n  a: String\n  aAlias: String\n  b: Int!\n  bAlias: Int!\n  upper: String\n  UPPER: String\n}\n\nextend type Query {\n  vhOverlap: VhOverlap\n}\n"), 0o644)
-		c.Config.ExtraModels = "  VhOverlap:\n    model: " + imp + ".VhOverlap\n    fields:\n      aAlias:\n        fieldName: a\n      bAlias:\n        fieldName: b\n"
+		if c.AutoBind {
+			// bound by name through autobind; the models entry only carries the field aliases
+			c.Config.ExtraModels = "  VhOverlap:\n    fields:\n      aAlias:\n        fieldName: a\n      bAlias:\n        fieldName: b\n"
+			if c.Config.Extra == nil {
+				c.Config.Extra = map[string]string{}
+			}
+			c.Config.Extra["autobind"] = "[\"" + imp + "\"]"
+		} else {
+			c.Config.ExtraModels = "  VhOverlap:\n    model: " + imp + ".VhOverlap\n    fields:\n      aAlias:\n        fieldName: a\n      bAlias:\n        fieldName: b\n"
+		}
 	}
 	_ = os.WriteFile(filepath.Join(dir, "gqlgen.yml"), []byte(c.Config.YAML()), 0o644)
 	tool := filepath.Join(work, "gqlgen-gen")
@@ -224,7 +234,11 @@ func gen(t *rapid.T) Case {
 	c := Case{Files: s.Files, Config: cfggen.Draw(t, "gen", objectFields(schema))}
 	c.UserModel = rapid.IntRange(0, 2).Draw(t, "usermodel") == 0
 	if c.UserModel {
+		c.AutoBind = rapid.Bool().Draw(t, "autobind")
 		vfrun.Label("user-model-with-aliased-fields")
+		if c.AutoBind {
+			vfrun.Label("user-model-via-autobind")
+		}
 	}
 	if c.Config.Bools["omit_resolver_fields"] && !c.Config.Bools["omit_getters"] && vfrun.KnownListed("modelgen.omit-resolver-fields-interface-getter") {
 		// known finding, excluded by construction: a resolver field that an implemented interface
